@@ -6,7 +6,7 @@ keys are owner / clone / shared / independent, or an unencrypted repository.  Be
 object map is abstracted (`impl/world.py`) to the model's `Store`; `repo.step` of the compiled Lean model must produce the same
 object map, error kind and uploaded chunk set, and the observed backend mutation trace must be accepted by `trace.accepts`
 (a linearisation of `planOf`).  Theorems: Properties/C02.lean (`consistent_step`, `consistent_reachable`,
-`restore_listed_exact`, `remaining_snapshot_unchanged`, `snapshot_survives_history`, `no_overwrite`, `consistent_prefix`,
+`restore_listed_exact`, `remaining_snapshot_unchanged`, `snapshot_survives_history`, `no_overwrite`, `consistent_prefix` (all commands),
 `consistent_interleaved`).
 
 Direct oracles (the property's statement on the real code, after EVERY command):
@@ -128,6 +128,79 @@ def restore_tie_case(arg):
     return res
 
 
+def crash_case(arg):
+    """a command is cut short: the backend fails at the k-th mutation of a delete / clean / snapshot (what a killed process or a
+    lost connection leaves).  Direct oracle: every snapshot that is still listed restores exactly; tie (delete, clean): the
+    mutations that did happen are an accepted prefix of the model's plan and lead to the same object map (`consistent_prefix`)"""
+    seed, idx = arg
+    from .. import common
+    common.use_rebuilt_chunker()
+    r = rng_for(seed, 'C02-crash', idx)
+    res = {'idx': idx, 'violations': [], 'tie': None}
+    with R.Scratch(f'c02c_{idx}') as sc:
+        cfg = H.gen_world_cfg(r)
+        w = World(sc, enc=cfg['enc'], chunking=cfg['chunking'], concurrent=cfg['concurrent'], cipher=cfg['cipher'], async_backend=cfg['async_backend'])
+        for kind, _ in cfg['users']:
+            w.add_user(kind, base=r.randrange(len(w.users)))
+        blocks = [r.randbytes(r.choice([24, 40, 64, 100])) for _ in range(4)]
+        prev = None
+        for _ in range(r.choice([2, 3, 4, 5])):
+            prev = H.gen_fileset(r, blocks, prev)
+            w.snapshot(r.randrange(len(w.users)), prev)
+        if r.random() < 0.5:      # an orphan, so that clean has work to do
+            x = w.snapshot(r.randrange(len(w.users)), H.gen_fileset(r, [r.randbytes(50), r.randbytes(70)], None))
+            del w.backend.objects[w.snap_by_sid[x['sid']]['location']]
+        ui = r.randrange(len(w.users))
+        u = w.users[ui]
+        own = [s for s, d in w.snap_by_sid.items() if d['location'] in w.backend.objects and d['owner'] == u.keyid and d['fam'] == u.fam]
+        kind = r.choice(['delete', 'delete', 'clean', 'snapshot']) if own else r.choice(['clean', 'snapshot'])
+        k = r.choice([0, 0, 1, 1, 2, 3, 5])
+        count = {'n': 0}
+        watch = 'put' if kind == 'snapshot' else 'del'
+
+        def fault(op, name):
+            if op == watch:
+                count['n'] += 1
+                if count['n'] > k:
+                    return RuntimeError('backend lost')
+            return None
+        others = {}
+        before = w.abstract_store(others)
+        t0 = len(w.backend.trace)
+        w.backend.fault = fault
+        op = None
+        try:
+            if kind == 'delete':
+                x = w.delete(ui, r.sample(own, min(len(own), r.choice([1, 2]))))
+                op, err = x['op'], x['error']
+            elif kind == 'clean':
+                x = w.clean(ui)
+                op, err = x['op'], x['error']
+            else:
+                try:
+                    w.snapshot(ui, H.gen_fileset(r, blocks + [r.randbytes(90)], prev))
+                    err = None
+                except Exception as e:  # noqa: BLE001
+                    err = 'other:' + type(e).__name__
+        finally:
+            w.backend.fault = None
+        muts = [t for t in w.backend.trace[t0:] if t[0] in ('put', 'del')]
+        res['summary'] = {'enc': cfg['enc'], 'users': [uu.kind for uu in w.users], 'command': kind, 'fails_at_mutation': k, 'mutations_done': len(muts), 'outcome': err}
+        res['interrupted'] = err is not None and err.startswith('other:')
+        # direct oracle
+        for s, d in w.snap_by_sid.items():
+            if d['location'] in w.backend.objects:
+                owner = next(i for i, uu in enumerate(w.users) if uu.keyid == d['owner'] and uu.fam == d['fam'])
+                e2, tree = w.restore(owner, snapshot_regex='^' + d['name'] + '$')
+                if e2 is not None or tree != d['truth']:
+                    res['violations'].append(('history:interrupted-command-damaged-snapshot',
+                                              f'{kind} by {u.kind} user cut short after {len(muts)} mutations: snapshot #{s} no longer restores exactly ({e2 or "content differs"})', {}))
+        if op is not None:
+            trace = [['del', w.abstract_name(t[1]) or ['other', 0]] for t in muts]
+            res['tie'] = {'req': {'op': 'trace.accepts', 'enc': cfg['enc'], 'store': before, 'cmd': op, 'trace': trace}, 'after': w.abstract_store(others)}
+    return res
+
+
 ALPHABET = [(k, u) for u in (0, 1) for k in ('snapA', 'snapB', 'del_old', 'del_new', 'clean')]
 EX_CONFIGS = {'shared': (True, 'shared'), 'independent': (True, 'independent'), 'clone': (True, 'clone'), 'plain': (False, 'clone')}
 
@@ -227,7 +300,7 @@ def run(out, drv, info):
                 '(owner + 0–3 of clone/shared/independent) × ' + str(n_ops) + ' operations from {snapshot of a file set built from shared blocks (paths appear/change/disappear, '
                 'repeat of the previous data), delete of own / another user\'s / unknown snapshots, clean, orphan injection}; '
                 'non-trivial = contains a successful delete or clean while ≥ 2 snapshot objects share ≥ 1 chunk; distinct = hash of (config, users, op kinds); '
-                'plus overlapping-snapshot cases (two real snapshot coroutines interleaved), non-trivial = the two file sets share a block; plus ALL histories up to length 2 (quick) / 3 (thorough) and a sample of length 4 over the alphabet {snapshot A, snapshot B, delete oldest own, delete newest own, clean} × 2 users in four key graphs (shared, independent, clone, unencrypted), non-trivial = ≥ 2 snapshots and a delete or clean; plus restore-tie cases (real restore vs model restore per (user, snapshot) pair)')
+                'plus overlapping-snapshot cases (two real snapshot coroutines interleaved), non-trivial = the two file sets share a block; plus ALL histories up to length 2 (quick) / 3 (thorough) and a sample of length 4 over the alphabet {snapshot A, snapshot B, delete oldest own, delete newest own, clean} × 2 users in four key graphs (shared, independent, clone, unencrypted), non-trivial = ≥ 2 snapshots and a delete or clean; plus commands cut short at the k-th backend mutation (delete / clean / snapshot), non-trivial = really interrupted after ≥ 1 mutation; plus restore-tie cases (real restore vs model restore per (user, snapshot) pair)')
     out.assumptions = ['ideal cryptography: digest = content id, MAC names injective per key family (DESIGN.md §4)',
                        'destructive commands (delete, clean) do not overlap with other commands (README)',
                        'unencrypted repository = one family (no keys)',
@@ -248,6 +321,17 @@ def run(out, drv, info):
         run_exhaustive(out, drv, 2, 4, 12)
     else:
         run_exhaustive(out, drv, 3, 4, 400)
+    # commands cut short
+    n_cr = 60 if quick else 1200
+    with mp.get_context('fork').Pool(min(16, os.cpu_count() or 4)) as pool:
+        results = pool.map(crash_case, [(out.seed, i) for i in range(n_cr)], chunksize=1)
+    for res in results:
+        out.case(res['summary'], res['interrupted'] and res['summary']['mutations_done'] > 0)
+        out.count('crash:' + res['summary']['command'] + (':interrupted' if res['interrupted'] else ':completed-or-refused'))
+        for sig, what, rp in res['violations']:
+            out.violation(sig, what, dict(rp, kind='crash', seed=out.seed, idx=res['idx']))
+        if drv is not None and res['tie'] is not None:
+            check_crash_tie(res, drv, out)
     # restore tie
     n_rt = 40 if quick else 600
     with mp.get_context('fork').Pool(min(16, os.cpu_count() or 4)) as pool:
@@ -261,6 +345,20 @@ def run(out, drv, info):
             out.violation(sig, what, dict(rp, kind='restore-tie', seed=out.seed, idx=res['idx']))
         if drv is not None:
             check_restore_tie(res, drv, out)
+
+
+def check_crash_tie(res, drv, out):
+    m = drv.ask(res['tie']['req'])
+    probs = []
+    if not m.get('accepts'):
+        probs.append('the mutations performed are not a prefix of a linearisation of the model plan')
+    elif H.canon_store(m['store_after_prefix']) != H.canon_store(res['tie']['after']):
+        probs.append('object map after the interrupted command differs from the model')
+    if probs:
+        out.disagreement(f'interrupted {res["summary"]["command"]}: ' + '; '.join(probs) + f' (trace {res["tie"]["req"]["trace"][:4]})', {'kind': 'crash', 'idx': res['idx']})
+        return 1
+    out.traces_validated += 1
+    return 0
 
 
 def check_restore_tie(res, drv, out):
@@ -297,6 +395,16 @@ def _replay(path, drv):
         for v in res['violations']:
             print('violation', v[0], v[1])
         return 1 if res['violations'] else 0
+    if rp.get('kind') == 'crash':
+        res = crash_case((rp.get('seed', 0), rp['idx']))
+        print('summary', res['summary'])
+        c = X._Collect()
+        bad = check_crash_tie(res, drv, c) if (drv is not None and res['tie'] is not None) else 0
+        for v in res['violations']:
+            print('violation', v[0], v[1])
+        for dd in c.d:
+            print('disagreement', dd)
+        return 1 if (res['violations'] or bad) else 0
     if rp.get('kind') == 'exhaustive':
         res = exhaustive_case((rp['cfg'], tuple(tuple(o) for o in rp['ops'])))
         c = X._Collect()
